@@ -32,6 +32,7 @@ pub struct Evaluator<'a> {
     symbols: &'a SymbolTable<Symbol>,
     functions: &'a FunctionMap,
     pc: Option<ProgramCounter>,
+    pass_idx: Option<usize>,
     usages: Arc<Mutex<Vec<SymbolUsage>>>,
 }
 
@@ -39,6 +40,8 @@ pub struct Evaluator<'a> {
 pub struct SymbolUsage {
     pub symbol_index: Option<SymbolIndex>,
     pub path: Located<IdentifierPath>,
+    /// Was this merely a question whether the symbol exists ('defined(..)') to which the answer was no?
+    pub is_query: bool,
 }
 
 pub struct SymbolSnapshot {
@@ -124,7 +127,39 @@ impl<'a> Evaluator<'a> {
             symbols,
             functions,
             pc,
+            pass_idx: None,
             usages: Arc::new(Mutex::new(vec![])),
+        }
+    }
+
+    /// The pass the evaluation takes place in (when it takes place during assembly)
+    pub fn in_pass(mut self, pass_idx: usize) -> Self {
+        self.pass_idx = Some(pass_idx);
+        self
+    }
+
+    pub fn usage_count(&self) -> usize {
+        self.usages.lock().unwrap().len()
+    }
+
+    /// Was everything that was looked up from a certain point on found, and defined by now? What is only known because
+    /// the previous pass defined it, further down in the source, has not been defined yet in this pass.
+    pub fn all_defined_by_now(&self, from: usize) -> bool {
+        self.usages.lock().unwrap().iter().skip(from).all(|usage| {
+            match usage.symbol_index.and_then(|nx| self.symbols.try_get(nx)) {
+                Some(symbol) => match self.pass_idx {
+                    Some(pass_idx) => symbol.pass_idx >= pass_idx || symbol.span.is_none(),
+                    None => true,
+                },
+                None => false,
+            }
+        })
+    }
+
+    /// Marks the usages that were recorded from a certain point on as mere questions
+    pub fn mark_as_queries(&self, from: usize) {
+        for usage in self.usages.lock().unwrap().iter_mut().skip(from) {
+            usage.is_query = true;
         }
     }
 
@@ -317,6 +352,7 @@ impl<'a> Evaluator<'a> {
             self.usages.lock().unwrap().push(SymbolUsage {
                 symbol_index,
                 path: path.clone(),
+                is_query: false,
             });
         }
 
